@@ -588,7 +588,7 @@ impl C06 {
         let ymax = case.y.iter().cloned().fold(f64::NEG_INFINITY, f64::max);
         let yscale = ymin.abs().max(ymax.abs()).max(1.0);
         // f32: leaf means come from single-precision running sums (worst excursion beyond the target range seen on the unchanged tree: 1.4e-5 of the scale)
-        let (mean_tol, range_tol) = if case.f32m { (1e-5, 1e-3) } else { (1e-12, 1e-9) };
+        let (mean_tol, range_tol) = if case.f32m { (1e-4, 1e-3) } else { (1e-12, 1e-9) };
         let agg = |rows_of_trees: &[usize], row: usize| -> (Vec<(f64, usize)>, f64) {
             // (votes per label, mean)
             let mut votes: Vec<(f64, usize)> = labels.iter().map(|l| (*l, 0usize)).collect();
